@@ -97,7 +97,9 @@ def lay(cls, rnd, eol, indent="    "):
         "space": " ",
         "nl": eol + indent,
         "nl0": eol,                      # continuation lines starting in column 1
-        "blockc": " /* c, c; c */ ",
+        # (no `/** .. */` here: between macro arguments that would be a doc comment, which is not valid Rust; `/***/`, `/**/` and
+        #  `/*** .. ***/` are ordinary comments)
+        "blockc": rnd.choice([" /* c, c; c */ ", " /***/ ", " /* * / ** c; */ ", " /**/ ", " /*** c, ***/ ", " /* c */ /*** d **/ ", " /* c **/ "]),
         "linec": " // c, c; (c" + eol + indent,
         "tabs": "\t \t",
         # the other characters Rust's lexer (and the grammar's WHITESPACE rule) treat as whitespace
@@ -235,7 +237,7 @@ def pre_text(cls, rnd, eol):
         "strlit": '    let s = "plain text, with: punct!"; ',
         "charlit": "    let c = '\"'; let d = '\\''; ",
         "eq": "    let unit = ",
-        "uni_indent": "    /* 世界 hé */ ",
+        "uni_indent": rnd.choice(["    /* 世界 hé */ ", "    /** 世界 hé **/ ", "    /***/ /* é */ "]),
         # hazards
         "kw_return": "    return ",
         "kw_break": "    break ",
@@ -400,6 +402,9 @@ def filler(rnd, eol):
         "struct P { x: i32, y: i32 }",
         "// an ordinary comment",
         "/* a block comment */",
+        "/** a starred banner **/",
+        "/*********/",
+        "/* * * */",
         "",
         "match v { Some(x) => x, None => 0 }",
         'println!("not a log macro {}", 1);',
